@@ -1,6 +1,7 @@
 package main
 
 import (
+	"runtime/debug"
 	"fmt"
 	"math/rand"
 	"runtime"
@@ -845,4 +846,75 @@ func driveIterMapTypes(tw *TraceWriter) {
 		ev["crash"] = firstLine(fmt.Sprint(pv))
 	}
 	tw.Emit(ev)
+}
+
+// itermap-cyclic: values that reach themselves (a map holding itself, a slice holding itself, a struct pointing to itself
+// through an interface) - legal Go values a container of `any` may be given.  The map stores and returns them and refuses a
+// second Add of a live key like any other; whatever it does with a value (format it, compare it, walk it) must end.  A
+// runaway recursion ends the PROCESS (stack overflow is not a panic), so this runs in a process of its own.
+func init() { drivers["itermap-cyclic"] = driveIterMapCyclic }
+
+type imSelfRef struct {
+	name string
+	me   any
+}
+
+func driveIterMapCyclic(opt *Options) error {
+	tw, err := NewTraceWriter(opt.Out)
+	if err != nil {
+		return err
+	}
+	defer tw.Close()
+	debug.SetMaxStack(64 << 20) // a runaway recursion shows after a fraction of a second instead of after a gigabyte
+	wrong := 0
+	p, pv := callPanics(func() {
+		cm := map[string]any{"name": "root"}
+		cm["self"] = cm
+		child := map[string]any{"parent": cm}
+		cm["child"] = child
+		cs := []any{1, nil}
+		cs[1] = cs
+		sr := &imSelfRef{name: "s"}
+		sr.me = sr
+		vals := []any{cm, cs, sr, child}
+		m := iterable.NewMap[string, any]()
+		for i, v := range vals {
+			k := fmt.Sprint("k", i)
+			if m.Add(k, v) != nil {
+				wrong++
+			}
+			if m.Add(k, v) == nil { // the key is live: refused
+				wrong++
+			}
+			if m.Add(k, vals[(i+1)%len(vals)]) == nil {
+				wrong++
+			}
+		}
+		if m.Len() != len(vals) {
+			wrong++
+		}
+		it := m.Iterator()
+		n := 0
+		for it.HasNext() {
+			e, ok := it.Next()
+			if !ok {
+				break
+			}
+			if e.Key != fmt.Sprint("k", n) {
+				wrong++
+			}
+			n++
+			m.Remove(e.Key)
+		}
+		it.Close()
+		if n != len(vals) || m.Len() != 0 {
+			wrong++
+		}
+	})
+	ev := map[string]any{"op": "Types", "instantiations": 1, "what": "values that reach themselves", "wrong": wrong}
+	if p {
+		ev["crash"] = firstLine(fmt.Sprint(pv))
+	}
+	tw.Emit(ev)
+	return nil
 }
